@@ -19,6 +19,20 @@ def iou_of(pts, k):
     return float(kr.rect_overlap(amin, amax, bmin, bmax))
 
 
+def iou_exact(pts, k):
+    """the same intersection-over-union from the property's definition over exact rationals (independent of knee_ranking)"""
+    from fractions import Fraction as F
+    (x0, y0), (x1, y1), (x2, y2) = [(F(float(a)), F(float(b))) for a, b in (pts[k - 1], pts[k], pts[k + 1])]
+    A = (min(x0, x1), min(y2, y1), max(x0, x1), max(y2, y1))      # corner rectangle: (p0.x, p2.y) - p1
+    B = (min(x0, x2), min(y0, y2), max(x0, x2), max(y0, y2))      # neighbour rectangle: p0 - p2
+    dx = max(F(0), min(A[2], B[2]) - max(A[0], B[0]))
+    dy = max(F(0), min(A[3], B[3]) - max(A[1], B[1]))
+    inter = dx * dy
+    if inter == 0:
+        return F(0)
+    return inter / ((A[2] - A[0]) * (A[3] - A[1]) + (B[2] - B[0]) * (B[3] - B[1]) - inter)
+
+
 def running_min(ys, ks):
     out = []
     for i, k in enumerate(ks):
@@ -71,6 +85,18 @@ def one(ctx, pts, ks, t, family):
             ctx.fail('predicate', 'corner-filter-rule(iou<t or end knee)', 'postprocessing.filter_corner_knees', case, dict(impl=f, expected=want_f, **detail))
         if s != want_s:
             ctx.fail('predicate', 'corner-select-rule(iou>=t)', 'postprocessing.select_corner_knees', case, dict(impl=s, expected=want_s, **detail))
+        # the same rule with the exact IoU of the definition, wherever the threshold is not within rounding of it
+        if np.all(np.isfinite(pts)):
+            from fractions import Fraction as F
+            tq = F(float(t))
+            for k in ks:
+                if both(k):
+                    q = iou_exact(pts, k)
+                    if abs(q - tq) > F(1, 10 ** 9):
+                        if (q >= tq) != (k in s) or (q < tq) != (k in f):
+                            ctx.fail('predicate', 'corner-rule-with-exact-IoU(select iff IoU>=t, filter keeps iff IoU<t)', 'postprocessing.filter_corner_knees/select_corner_knees',
+                                     case, dict(knee=k, iou_exact=float(q), iou_package=ious[k], t=float(t), filter=f, select=s))
+                            break
         if sorted(f + s) != sorted(ks) or set(f) & set(s):
             ctx.fail('predicate', 'corner-partition', 'postprocessing.filter_corner_knees+select_corner_knees', case, detail)
         if f == want_f and s == want_s:
